@@ -98,6 +98,22 @@ def chi_reference(k, dd):
     return sum_over(fm.inf_to(term), W)
 
 
+class ConfidenceDomain:
+    """the documented domain of a limit's confidence, 0 <= confidence <= 1 (data-format page; the quantifier of C03): the comparisons `confidence < 0` and
+    `1 - confidence < 0` are false.  Nothing is said about equality with 0 or 1 - those ends are inside the domain and are decided separately."""
+    def __init__(self):
+        self.val = {}
+        conf = sym('conf', W)
+        for q in (alg.mk_ind('<0', 1 - conf), alg.mk_ind('<0', conf)):
+            if q.is_monomial():
+                (m, c), = q.t.items()
+                if c == 1 and len(m) == 1 and m[0][1] == 1 and m[0][0][0] == 'ind':
+                    self.val[m[0][0]] = 0
+
+    def simplify(self, p):
+        return alg.rebuild(p, lambda a: Poly.const(self.val[a]) if a in self.val else None)
+
+
 def check_chi(ctx, rows):
     repo = ctx.repo
     chi = ctx.fn(repo.func('fitting_routines', 'chi_squared'))
@@ -114,7 +130,7 @@ def check_chi(ctx, rows):
                 # composed with the transform: this flag's weight is identically zero
                 out = out.with_(poly=alg.subst_sym(out.poly, {'wt': lambda labs: Poly()}))
                 ref = alg.subst_sym(ref, {'wt': lambda labs: Poly()})
-            okk = compare(ctx, 'ALG-4', inst, loc(chi), out, ref, dd[:-1], vocab=VOCAB, findings=I.findings,
+            okk = compare(ctx, 'ALG-4', inst, loc(chi), out, ref, dd[:-1], facts=ConfidenceDomain(), vocab=VOCAB, findings=I.findings,
                           detail_ok={0: 'no contribution', 2: 'zero weight: contributes -2ln(1-conf) exactly where model < data, nothing elsewhere; inf -> 1e30 afterwards',
                                      3: 'zero weight: contributes -2ln(1-conf) exactly where model > data, nothing elsewhere; inf -> 1e30 afterwards',
                                      9: 'zero weight: no contribution'}.get(k, '(data-model)^2*w; inf -> 1e30'))
@@ -241,6 +257,7 @@ MO = 'sedfitter/models.py'
 SO = 'sedfitter/source/source.py'
 
 MUST_FIRE = [
+    ('round 13: 1 - confidence clamped at a positive number before the logarithm (confidence 1 no longer excludes a violating model)', [('sedfitter/fitting_routines.py', '            reset = model[:, j] < data[:, j]\n            chi2_array[:, j][reset] = -2. * np.log(1. - error[j])\n', '            reset = model[:, j] < data[:, j]\n            chi2_array[:, j][reset] = -2. * np.log(np.maximum(1. - error[j], 1e-300))\n'), ('sedfitter/fitting_routines.py', '            reset = model[:, :, j] < data[:, :, j]\n            chi2_array[:, :, j][reset] = -2. * np.log(1. - error[j])\n', '            reset = model[:, :, j] < data[:, :, j]\n            chi2_array[:, :, j][reset] = -2. * np.log(np.maximum(1. - error[j], 1e-300))\n'), ('sedfitter/fitting_routines.py', '            reset = model[:, j] > data[:, j]\n            chi2_array[:, j][reset] = -2. * np.log(1. - error[j])\n', '            reset = model[:, j] > data[:, j]\n            chi2_array[:, j][reset] = -2. * np.log(np.maximum(1. - error[j], 1e-300))\n'), ('sedfitter/fitting_routines.py', '            reset = model[:, :, j] > data[:, :, j]\n            chi2_array[:, :, j][reset] = -2. * np.log(1. - error[j])\n', '            reset = model[:, :, j] > data[:, :, j]\n            chi2_array[:, :, j][reset] = -2. * np.log(np.maximum(1. - error[j], 1e-300))\n')]),
     ('round 12 twin: np.select for the limits with default=0: the errors of the fluxes filled in before are wiped', [('sedfitter/source/source.py', "        r = (self.valid == 2) | (self.valid == 3)\n        log_flux[r] = np.log10(self.flux[r])\n        log_error[r] = self.error[r]\n", "        r = (self.valid == 2) | (self.valid == 3)\n        log_flux = np.select([r], [np.log10(self.flux)], default=log_flux)\n        log_error = np.select([r], [self.error], default=0.)\n")]),
     ('plot-only points converted with the fitted ones, their weight made zero by a truth value over the error: 0/0 is NaN for an error of zero', [(SO, "        r = self.valid == 1\n        log_flux[r] = np.log10(self.flux[r]) - 0.5 * (self.error[r] / self.flux[r]) ** 2. / np.log(10.)\n        log_error[r] = np.abs(self.error[r] / self.flux[r]) / np.log(10.)\n        weight[r] = 1. / log_error[r] ** 2.\n", "        r = (self.valid == 1) | (self.valid == 9)\n        log_flux[r] = np.log10(self.flux[r]) - 0.5 * (self.error[r] / self.flux[r]) ** 2. / np.log(10.)\n        log_error[r] = np.abs(self.error[r] / self.flux[r]) / np.log(10.)\n        weight[r] = (self.valid[r] == 1) / log_error[r] ** 2.\n")]),
     ('unused columns left out from the start, the error column not: limits read another filter\'s confidence', [(FR, "    # Calculate the 'default' chi^2 and handle special cases after\n", "    used = valid != 0\n    if not np.all(used):\n        valid, weight = valid[used], weight[used]\n        data, model = data[..., used], model[..., used]\n\n    # Calculate the 'default' chi^2 and handle special cases after\n")]),
@@ -267,6 +284,7 @@ MUST_FIRE = [
     ('upper limits treated like lower in chi2 mask', [(FR, "        for j in np.where(valid == 3)[0]:\n            reset = model[:, j] > data[:, j]", "        for j in np.where(valid >= 3)[0]:\n            reset = model[:, j] > data[:, j]")]),
 ]
 MUST_SILENT = [
+    ('round 13: 1 - confidence clamped at 0 before the logarithm (the same value for every confidence in [0, 1])', [('sedfitter/fitting_routines.py', '            reset = model[:, j] < data[:, j]\n            chi2_array[:, j][reset] = -2. * np.log(1. - error[j])\n', '            reset = model[:, j] < data[:, j]\n            chi2_array[:, j][reset] = -2. * np.log(np.maximum(1. - error[j], 0.))\n'), ('sedfitter/fitting_routines.py', '            reset = model[:, :, j] < data[:, :, j]\n            chi2_array[:, :, j][reset] = -2. * np.log(1. - error[j])\n', '            reset = model[:, :, j] < data[:, :, j]\n            chi2_array[:, :, j][reset] = -2. * np.log(np.maximum(1. - error[j], 0.))\n'), ('sedfitter/fitting_routines.py', '            reset = model[:, j] > data[:, j]\n            chi2_array[:, j][reset] = -2. * np.log(1. - error[j])\n', '            reset = model[:, j] > data[:, j]\n            chi2_array[:, j][reset] = -2. * np.log(np.maximum(1. - error[j], 0.))\n'), ('sedfitter/fitting_routines.py', '            reset = model[:, :, j] > data[:, :, j]\n            chi2_array[:, :, j][reset] = -2. * np.log(1. - error[j])\n', '            reset = model[:, :, j] > data[:, :, j]\n            chi2_array[:, :, j][reset] = -2. * np.log(np.maximum(1. - error[j], 0.))\n')]),
     ('round 12: the limits filled in with np.select, everything else kept through default=', [('sedfitter/source/source.py', "        r = (self.valid == 2) | (self.valid == 3)\n        log_flux[r] = np.log10(self.flux[r])\n        log_error[r] = self.error[r]\n", "        r = (self.valid == 2) | (self.valid == 3)\n        log_flux = np.select([r], [np.log10(self.flux)], default=log_flux)\n        log_error = np.select([r], [self.error], default=log_error)\n")]),
     ('unused columns left out from the start, in every per-filter array', [(FR, "    # Calculate the 'default' chi^2 and handle special cases after\n", "    used = valid != 0\n    if not np.all(used):\n        valid, weight = valid[used], weight[used]\n        data, model = data[..., used], model[..., used]\n        error = error[used]\n\n    # Calculate the 'default' chi^2 and handle special cases after\n")]),
     ('lower-limit penalty selected with np.where', [(FR, "        for j in np.where(valid == 2)[0]:\n            reset = model[:, j] < data[:, j]\n            chi2_array[:, j][reset] = -2. * np.log(1. - error[j])\n", "        for j in np.where(valid == 2)[0]:\n            reset = model[:, j] < data[:, j]\n            chi2_array[:, j] = np.where(reset, -2. * np.log(1. - error[j]), chi2_array[:, j])\n")]),
